@@ -401,6 +401,60 @@ def _entry_job(job):
   return bad
 
 
+def stub_layouts(pyi):
+  """other layouts of the same stub (same AST): from-imports wrapped in parentheses over several lines (black / isort
+  style), one name per line, with a trailing comment, split into one import statement per name"""
+  import re  # pylint: disable=g-import-not-at-top
+  lines = pyi.split("\n")
+  idx = [i for i, l in enumerate(lines) if re.match(r"^from [\w.]+ import [\w, ]+$", l)]
+  if not idx:
+    return []
+  def rewrite(fn):
+    out = list(lines)
+    for i in idx:
+      mod, names = re.match(r"^from ([\w.]+) import (.+)$", lines[i]).groups()
+      out[i] = fn(mod, [n.strip() for n in names.split(",")])
+    return "\n".join(out)
+  return [
+      rewrite(lambda m, ns: "from %s import (\n    %s,\n)" % (m, ",\n    ".join(ns))),
+      rewrite(lambda m, ns: "from %s import (%s,\n    )  # wrapped" % (m, ",\n    ".join(ns)) if len(ns) > 1 else
+              "from %s import (\n    %s\n)" % (m, ns[0])),
+      rewrite(lambda m, ns: "\n".join("from %s import %s" % (m, n) for n in ns)),
+      rewrite(lambda m, ns: "from %s import \\\n    %s" % (m, ", ".join(ns))),
+  ]
+
+
+def correspond_layout(res, modelled, reals, tier):
+  """K3: merge_sources depends on the stub's syntax tree, not on how its text is laid out: every pair whose stub has a
+  from-import is merged again with the import re-laid-out in four ways (same AST, checked) and must give the same
+  output — in particular the Any/Never filter must see a typing import however it is wrapped."""
+  jobs, owners = [], []
+  limit = 120 if tier == "quick" else 1500
+  for k, ((kind, py, pyi), (out, err)) in enumerate(zip(modelled, reals)):
+    if len(owners) >= limit and kind not in ("hand", "witness"):
+      continue
+    for v in stub_layouts(pyi):
+      try:
+        same = ast.dump(ast.parse(v)) == ast.dump(ast.parse(pyi))
+      except SyntaxError:
+        same = False
+      if same and v != pyi:
+        jobs.append((py, v))
+        owners.append(k)
+  outs = merge_many(jobs)
+  dis = []
+  with_any = 0
+  for (py, v), k, got in zip(jobs, owners, outs):
+    with_any += ("Any" in v or "Never" in v)
+    want = reals[k]
+    if (got[0], got[1] is None) != (want[0], want[1] is None):
+      dis.append({"py": py, "pyi": v, "kind": "layout", "what": "the same stub in another text layout is merged differently",
+                  "original_layout": modelled[k][2], "out_original": (want[0] or want[1] or "")[:800],
+                  "out_relayout": (got[0] or got[1] or "")[:800]})
+  res.cov["stub_layouts"] = {"pairs": len(set(owners)), "relaid_out_stubs": len(jobs), "mentioning_Any_or_Never": with_any}
+  return dis
+
+
 def correspond_entry(res, modelled, reals, tier, drv):
   """K2: the file-based entry points (merge_files in its three modes with and without a backup extension,
   merge_files_src, merge_tree, the merge-pyi command line) against the Lean model Merge/Entry.lean instantiated with
@@ -492,6 +546,7 @@ def correspond(res, rng, tier):
       "non-trivial = the merge changed the program; distinct = distinct (program, stub) texts" % (
           len(HAND_CASES), n_prog, n_indep))
   disagreements += correspond_entry(res, modelled, reals, tier, drv)
+  disagreements += correspond_layout(res, modelled, reals, tier)
   stats.update(hist)
   stats["annotation_tokens_inserted"] = ins_total
   stats["K_wall_s"] = round(time.time() - t0, 1)
